@@ -148,6 +148,26 @@ KERNELS = [
     dict(name='intervalDiff', file='torf/_generate.py', func='_IntervaledCallback.__call__',
          pick=('assign', 'diff'), atoms={'self._prev_call_time': 'prev'},
          params=[('now', 'Int'), ('prev', 'Int')], ret='Int'),
+    # --- the open-handle table of a stream (C19): the eviction loop's condition and the class default of the cap
+    dict(name='evictWhile', file='torf/_stream.py', func='TorrentFileStream._get_open_file',
+         pick=('while-test-guarding', '.close()'),
+         atoms={'len(self._open_files)': 'n_open', 'self.max_open_files': 'cap'},
+         params=[('n_open', 'Int'), ('cap', 'Int')], ret='Bool'),
+    dict(name='maxOpenFilesDefault', file='torf/_stream.py', func='TorrentFileStream', pick=('class-attr', 'max_open_files'),
+         params=[], ret='Int'),
+    # --- validation patterns (C14: info hash / xt; C08: md5sum): pattern text and flags are parsed with Python's own
+    #     re._parser, the character set of every position is enumerated over all code points with the re engine itself
+    dict(name='infohashRegex', kind='regex', file='torf/_magnet.py', var='_INFOHASH_REGEX'),
+    dict(name='xtRegex', kind='regex', file='torf/_magnet.py', var='_XT_REGEX'),
+    dict(name='md5sumRegex', kind='regex', file='torf/_utils.py', var='_md5sum_regex'),
+    # --- the parameter tables of magnet URIs (C13): literal tuples of names; an element that is itself a tuple
+    #     contributes its first component
+    dict(name='magnetKnownParameters', kind='strings', file='torf/_magnet.py', func='Magnet',
+         pick=('class-attr', '_KNOWN_PARAMETERS')),
+    dict(name='magnetSingleParams', kind='strings', file='torf/_magnet.py', func='Magnet.from_string', pick=('for-tuple', 0)),
+    dict(name='magnetMultiParams', kind='strings', file='torf/_magnet.py', func='Magnet.from_string', pick=('for-tuple', 1)),
+    dict(name='magnetRenderSingle', kind='strings', file='torf/_magnet.py', func='Magnet.__str__', pick=('for-tuple', 0)),
+    dict(name='magnetRenderMulti', kind='strings', file='torf/_magnet.py', func='Magnet.__str__', pick=('for-tuple', 1)),
 ]
 
 
@@ -207,6 +227,24 @@ def _pick(fn, pick):
         if len(hits) != 1:
             raise CannotTranslate(f'{len(hits)} if-statements guarding {pick[1]}')
         return hits[0].test
+    if kind == 'while-test-guarding':
+        hits = [n for n in ast.walk(fn) if isinstance(n, ast.While) and any(pick[1] in ast.unparse(b) for b in n.body)]
+        if len(hits) != 1:
+            raise CannotTranslate(f'{len(hits)} while-loops guarding {pick[1]}')
+        return hits[0].test
+    if kind == 'class-attr':
+        hits = [n for n in fn.body if isinstance(n, ast.Assign) and len(n.targets) == 1 and
+                isinstance(n.targets[0], ast.Name) and n.targets[0].id == pick[1]]
+        if len(hits) != 1:
+            raise CannotTranslate(f'{len(hits)} class-level assignments to {pick[1]}')
+        return hits[0].value
+    if kind == 'for-tuple':
+        # the n-th `for … in (<literal tuple>)` loop of the function, in source order
+        hits = sorted((n for n in ast.walk(fn) if isinstance(n, ast.For) and isinstance(n.iter, ast.Tuple)),
+                      key=lambda n: n.lineno)
+        if len(hits) <= pick[1]:
+            raise CannotTranslate(f'only {len(hits)} loops over a literal tuple')
+        return hits[pick[1]].iter
     if kind == 'attr-assign':
         # the value assigned to an attribute, e.g. `self.piece_size = <value>`
         hits = [n for n in ast.walk(fn) if isinstance(n, ast.Assign) and len(n.targets) == 1 and
@@ -345,7 +383,164 @@ class Tr:
         return go(fn.body)
 
 
+_ALL_CHARS = None
+_CSET_CACHE = {}
+
+
+def _cset(pattern_text, flags):
+    """the set of code points (surrogates excluded) a one-character pattern matches, asked from the re engine"""
+    global _ALL_CHARS
+    key = (pattern_text, flags)
+    if key not in _CSET_CACHE:
+        if _ALL_CHARS is None:
+            _ALL_CHARS = ''.join(chr(c) for c in range(0x110000) if not 0xD800 <= c <= 0xDFFF)
+        pts = [ord(c) for c in re.compile(pattern_text, flags | re.DOTALL).findall(_ALL_CHARS)]
+        ranges = []
+        for c in pts:
+            if ranges and ranges[-1][1] + 1 == c:
+                ranges[-1][1] = c
+            else:
+                ranges.append([c, c])
+        _CSET_CACHE[key] = ranges
+    return _CSET_CACHE[key]
+
+
+def _class_text(items):
+    """re-build the text of a character class from its parse tree (ranges and literals only)"""
+    from re import _constants as C
+    out, neg = [], False
+    for op, av in items:
+        if op is C.NEGATE:
+            neg = True
+        elif op is C.LITERAL:
+            out.append('\\U%08x' % av)
+        elif op is C.RANGE:
+            out.append('\\U%08x-\\U%08x' % av)
+        else:
+            raise CannotTranslate(f'character class item {op}')
+    return '[' + ('^' if neg else '') + ''.join(out) + ']'
+
+
+def _one_char(item, flags):
+    from re import _constants as C
+    op, av = item
+    if op is C.LITERAL:
+        return _cset('\\U%08x' % av, flags)
+    if op is C.IN:
+        return _cset(_class_text(av), flags)
+    raise CannotTranslate(f'pattern item {op}')
+
+
+def _lean_cset(ranges):
+    return '[' + ', '.join(f'({a}, {b})' for a, b in ranges) + ']'
+
+
+def translate_regex(repo, k):
+    from re import _constants as C, _parser
+    src = open(os.path.join(repo, k['file'])).read()
+    tree = ast.parse(src)
+    hits = [n for n in ast.walk(tree) if isinstance(n, ast.Assign) and len(n.targets) == 1 and
+            isinstance(n.targets[0], ast.Name) and n.targets[0].id == k['var']]
+    if len(hits) != 1:
+        raise CannotTranslate(f'{len(hits)} assignments to {k["var"]}')
+    call = hits[0].value
+    if not (isinstance(call, ast.Call) and ast.unparse(call.func) == 're.compile' and call.args and
+            isinstance(call.args[0], ast.Constant) and isinstance(call.args[0].value, str)):
+        raise CannotTranslate(f'{k["var"]} is not re.compile(<literal>)')
+    pattern = call.args[0].value
+    flag_node = call.args[1] if len(call.args) > 1 else next((kw.value for kw in call.keywords if kw.arg == 'flags'), None)
+    flags = 0
+    if flag_node is not None:
+        for n in ast.walk(flag_node):
+            if isinstance(n, (ast.BinOp, ast.BitOr, ast.Load)):
+                continue
+            if isinstance(n, ast.Attribute) and isinstance(n.value, ast.Name) and n.value.id == 're' and n.attr.isupper():
+                flags |= int(getattr(re, n.attr))
+            elif isinstance(n, ast.Name) and n.id == 're':
+                continue
+            else:
+                raise CannotTranslate(f'flags expression {ast.unparse(flag_node)}')
+    if flags & (re.MULTILINE | re.VERBOSE | re.LOCALE):
+        raise CannotTranslate('MULTILINE / VERBOSE / LOCALE pattern')
+    # how the pattern object is used: every use must be <var>.match( / .fullmatch( ; .search( only behind a leading ^
+    uses = set(re.findall(r'\b' + re.escape(k['var']) + r'\.(\w+)\(', src))
+    items = list(_parser.parse(pattern, flags))
+    flags = _parser.parse(pattern, flags).state.flags      # includes the implicit UNICODE flag of str patterns
+    anchored = bool(items) and items[0] == (C.AT, C.AT_BEGINNING)
+    if anchored:
+        items = items[1:]
+    if not uses or not uses <= {'match', 'fullmatch', 'search'} or ('search' in uses and not anchored):
+        raise CannotTranslate(f'uses of the pattern object: {sorted(uses)}')
+    end = 'open'
+    if items and items[-1][0] is C.AT:
+        if items[-1][1] is C.AT_END:
+            end = 'dollar'
+        elif items[-1][1] is C.AT_END_STRING:
+            end = 'absolute'
+        else:
+            raise CannotTranslate(f'anchor {items[-1][1]}')
+        items = items[:-1]
+    if uses == {'fullmatch'}:
+        end = 'absolute'
+    elif 'fullmatch' in uses:
+        raise CannotTranslate('pattern used both with match and fullmatch')
+    if not items:
+        raise CannotTranslate('empty pattern')
+
+    def alt_of(seq):
+        if len(seq) != 1:
+            raise CannotTranslate('alternative is not a single repeated set')
+        op, av = seq[0]
+        if op in (C.LITERAL, C.IN):
+            lo, hi, body = 1, 1, [seq[0]]
+        elif op is C.MAX_REPEAT:
+            lo, hi, body = av
+            body = list(body)
+        else:
+            raise CannotTranslate(f'alternative {op}')
+        if len(body) != 1:
+            raise CannotTranslate('repeat of more than one position')
+        his = 'none' if hi == C.MAXREPEAT else f'(some {int(hi)})'
+        return f'⟨{_lean_cset(_one_char(body[0], flags))}, {int(lo)}, {his}⟩'
+
+    last = items[-1]
+    if last[0] is C.SUBPATTERN:
+        group, add, dele, body = last[1]
+        if add or dele:
+            raise CannotTranslate('inline flags')
+        body = list(body)
+        if len(body) == 1 and body[0][0] is C.BRANCH:
+            alts = [alt_of(list(b)) for b in body[0][1][1]]
+        else:
+            alts = [alt_of(body)]
+    else:
+        alts = [alt_of([last])]
+    pre = [_lean_cset(_one_char(it, flags)) for it in items[:-1]]
+    body = ('{ pre := [' + ', '.join(pre) + '],\n    alts := [' + ',\n             '.join(alts) + '],\n    endA := .' + end + ' }')
+    return f'def {k["name"]} : Torf.Rx.Shape :=\n  {body}'
+
+
+def translate_strings(repo, k):
+    tree = ast.parse(open(os.path.join(repo, k['file'])).read())
+    node = _pick(_find_func(tree, k['func']), k['pick'])
+    if not isinstance(node, (ast.Tuple, ast.List)):
+        raise CannotTranslate('not a literal tuple / list')
+    out = []
+    for e in node.elts:
+        if isinstance(e, (ast.Tuple, ast.List)) and e.elts:
+            e = e.elts[0]
+        if not (isinstance(e, ast.Constant) and isinstance(e.value, str) and e.value.isascii() and e.value.isprintable()
+                and '"' not in e.value and '\\' not in e.value):
+            raise CannotTranslate(f'element {ast.unparse(e)}')
+        out.append('"' + e.value + '"')
+    return f'def {k["name"]} : List String :=\n  [' + ', '.join(out) + ']'
+
+
 def translate_kernel(repo, k):
+    if k.get('kind') == 'regex':
+        return translate_regex(repo, k)
+    if k.get('kind') == 'strings':
+        return translate_strings(repo, k)
     src = open(os.path.join(repo, k['file'])).read()
     tree = ast.parse(src)
     fn = _find_func(tree, k['func'])
@@ -365,6 +560,7 @@ HEADER = '''/-
   One definition per kernel; the markers let the translator keep the committed snapshot of a
   kernel it can no longer locate.
 -/
+import Torf.Base.Rx
 namespace Torf.Generated
 
 '''
@@ -393,7 +589,7 @@ def regenerate(repo=None):
                 status[k['name']] = f'fallback-to-snapshot: {e}'
             else:
                 raise
-        parts.append(f'-- KERNEL {k["name"]} BEGIN  ({k["file"]}: {k["func"]})\n{d}\n-- KERNEL {k["name"]} END\n\n')
+        parts.append(f'-- KERNEL {k["name"]} BEGIN  ({k["file"]}: {k.get("func") or k.get("var")})\n{d}\n-- KERNEL {k["name"]} END\n\n')
     parts.append('end Torf.Generated\n')
     new = ''.join(parts)
     old = open(OUT).read() if os.path.exists(OUT) else None
